@@ -95,8 +95,11 @@ def headerFilter(match: Match[str], _, d: Def) -> str:
     if macros.getValue('--header-ids') and blockattributes.id == '':
         blockattributes.id = blockattributes.slugify(match[2])
     result = utils.replaceMatch(match, d.replacement, Expand(macros=True))
-    # Replace $1 with header number e.g. "<h###>" -> "<h3>"
-    result = result.replace(match[1] + '>', str(len(match[1])) + '>')
+    # Replace $1 with header number e.g. "<h###>" -> "<h3>" (in the two tags of the header, not in the title between them).
+    opentag, closetag = '<h' + match[1] + '>', '</h' + match[1] + '>'
+    if result.startswith(opentag) and result.endswith(closetag):
+        n = str(len(match[1]))
+        result = '<h' + n + '>' + result[len(opentag):len(result) - len(closetag)] + '</h' + n + '>'
     return result
 
 
